@@ -161,7 +161,9 @@ fn setup_opt(pair: &[D; 2], cfg: TxCfg, partial_updates: bool) -> Option<Setup> 
             ],
         };
         let seq = if cfg.seq0_final && i == 0 { 0xffff_ffff } else if c.olders.is_empty() { cfg.seq_other } else { cfg.seq_older };
-        inputs.push(TxIn { previous_output: OutPoint { txid: ftx.compute_txid(), vout: 1 }, script_sig: ScriptBuf::new(), sequence: Sequence(seq), witness: Witness::new() });
+        // "forged-vout": the transaction references an output the funding transaction does not have
+        let vout = if cfg.name == "forged-vout" { 2 } else { 1 };
+        inputs.push(TxIn { previous_output: OutPoint { txid: ftx.compute_txid(), vout }, script_sig: ScriptBuf::new(), sequence: Sequence(seq), witness: Witness::new() });
         prevouts.push(ftx.output[1].clone());
         funding.push(ftx);
     }
@@ -179,6 +181,11 @@ fn setup_opt(pair: &[D; 2], cfg: TxCfg, partial_updates: bool) -> Option<Setup> 
             let mut forged = prevouts[i].clone();
             forged.value = Amount::from_sat(forged.value.to_sat() + 1);
             psbt0.inputs[i].witness_utxo = Some(forged);
+            psbt0.inputs[i].non_witness_utxo = Some(funding[i].clone());
+        } else if cfg.name == "forged-vout" {
+            // both utxo fields: the genuine funding transaction (whose txid the outpoint names) and a
+            // witness_utxo that claims the descriptor's output for the non-existent index
+            psbt0.inputs[i].witness_utxo = Some(prevouts[i].clone());
             psbt0.inputs[i].non_witness_utxo = Some(funding[i].clone());
         } else if segwit {
             psbt0.inputs[i].witness_utxo = Some(prevouts[i].clone());
@@ -215,7 +222,7 @@ fn setup_opt(pair: &[D; 2], cfg: TxCfg, partial_updates: bool) -> Option<Setup> 
     }
     actions.push(Act::Finalize);
     actions.push(Act::FinalizeMall);
-    Some(Setup { sign_from_psbt: cfg.name == "forged-utxo", cases, psbt0, tx, prevouts, actions })
+    Some(Setup { sign_from_psbt: cfg.name == "forged-utxo" || cfg.name == "forged-vout", cases, psbt0, tx, prevouts, actions })
 }
 
 fn spend_of(s: &Setup, idx: usize) -> Spend { Spend { tx: s.tx.clone(), idx, prevouts: s.prevouts.clone() } }
@@ -588,6 +595,9 @@ fn explore_pair_mode(rep: &Report, name: &str, pair: &[D; 2], depth: usize, cfg:
                 }
                 if !was_final && now_final {
                     bump(&mut cen, "inputs_finalized");
+                    if cfg.name == "forged-vout" {
+                        viol("finalized-against-nonexistent-output".into(), format!("input {} finalized by {:?} although the funding transaction in the PSBT has no output at the referenced index", i, a), &h2, json!(null));
+                    }
                     let ss = q.inputs[i].final_script_sig.clone().unwrap_or_default();
                     let wit: Vec<Vec<u8>> = q.inputs[i].final_script_witness.as_ref().map(|w| w.iter().map(|x| x.to_vec()).collect()).unwrap_or_default();
                     match verify_input(&spend_of(&s, i), ss.as_bytes(), &wit, true) {
@@ -776,7 +786,7 @@ fn explore_pair_mode(rep: &Report, name: &str, pair: &[D; 2], depth: usize, cfg:
             }
             // update invariants
             if let Act::Update(i) = a {
-                if cfg.name == "forged-utxo" {
+                if cfg.name == "forged-utxo" || cfg.name == "forged-vout" {
                     // the two utxo fields disagree about the amount. Where the library notices is its
                     // choice (today: the update refuses); what C14 demands is that no history ends in a
                     // finalized input or extracted transaction that does not spend the real output -
@@ -983,6 +993,11 @@ pub fn run(tier: Tier) -> i32 {
     let forged = TxCfg { name: "forged-utxo", ..CFG_DEFAULT };
     for (a, b) in [("wpkh", "wsh-multi"), ("sh-wpkh", "tr-1leaf"), ("sh-wsh-sortedmulti", "pkh")] {
         jobs.push((format!("{}+{}@forged-utxo", a, b), [relabel(&fam[idx(a)].1, 0), relabel(&fam[idx(b)].1, 1)], depth.min(6), forged));
+    }
+    // inputs whose outpoint names an index the funding transaction does not have
+    let forged_vout = TxCfg { name: "forged-vout", ..CFG_DEFAULT };
+    for (a, b) in [("wpkh", "wsh-multi"), ("sh-wpkh", "tr-1leaf"), ("pkh", "sh-multi")] {
+        jobs.push((format!("{}+{}@forged-vout", a, b), [relabel(&fam[idx(a)].1, 0), relabel(&fam[idx(b)].1, 1)], depth.min(6), forged_vout));
     }
     rep.extra("bounds", json!({"pairs": pairs.len(), "jobs": jobs.len(), "history_depth": depth, "deep_depth_for_quick_pairs": deep_depth, "inputs": 2,
         "transaction_parameter_sets": CFGS_LOCKS.iter().map(|c| format!("{:?}", c)).collect::<Vec<_>>()}));
